@@ -21,6 +21,8 @@ ASSUMPTIONS = []
 
 def run(ctx):
     g = ctx.facts.getters()
+    ctx.clauses.append("relator scans: both exits report (row reached, letters consumed); scan_both_ways = (head with full budget, tail with the rest, gap, w[i]) (T9)")
+    relator_scan_shape(ctx, "T9-relator-scan", g)
     ch = ctx.body(BT + "children")
     ex = ctx.body(BT + "extract")
     pc = ctx.body("fpgroups::cosets::potential_children")
